@@ -51,14 +51,14 @@ Proof.
 Qed.
 
 (** * append(first, last): one push_back each; the first one without room stops at its precondition *)
-Lemma append_range_outcome : forall l s, inv s ->
-  if get_size s + zlen l <=? cap s then returns s (append_range_m s l) else append_range_m s l = Contract.
+Lemma push_back_loop_outcome : forall l s, inv s ->
+  if get_size s + zlen l <=? cap s then returns s (push_back_loop_m s l) else push_back_loop_m s l = Contract.
 Proof.
   induction l as [|x l IH]; intros s I; pose proof I as (_ & _ & Hs & _).
   - change (zlen []) with 0. replace (get_size s + 0 <=? cap s) with true by lia.
     exists s. split; [reflexivity|apply keeps_refl; exact I].
   - assert (Hl : zlen (x :: l) = zlen l + 1) by (unfold zlen; cbn [length]; lia).
-    pose proof (zlen_nonneg l) as Hnn. cbn [append_range_m].
+    pose proof (zlen_nonneg l) as Hnn. cbn [push_back_loop_m].
     destruct (Z_lt_le_dec (get_size s) (cap s)) as [Hroom|Hfull].
     + destruct (size_of_refines s _ _ I (push_back_ref s x I ltac:(lia))) as (s1 & E1 & K1 & G1).
       rewrite E1. cbn [rbind]. rewrite zlen_app, (contents_len s I) in G1. change (zlen [x]) with 1 in G1.
@@ -70,6 +70,32 @@ Proof.
     + replace (get_size s + zlen (x :: l) <=? cap s) with false by lia.
       unfold push_back_m. replace (get_size s <? cap s) with false by lia. reflexivity.
 Qed.
+
+(* random access iterators: the range that does not fit is reported up front; other iterators: by the first push_back
+   without room — the outcome is the same *)
+Lemma append_range_cat_outcome ra l s : inv s ->
+  if get_size s + zlen l <=? cap s then returns s (append_range_cat_m ra s l) else append_range_cat_m ra s l = Contract.
+Proof.
+  intros I. pose proof I as (Hc & _ & Hs & _). unfold cap_ok in Hc. pose proof (push_back_loop_outcome l s I) as H.
+  unfold append_range_cat_m. destruct ra; [|exact H]. rewrite (sz_id (cap s - get_size s)) by lia.
+  destruct (get_size s + zlen l <=? cap s) eqn:E.
+  - replace (zlen l <=? cap s - get_size s) with true by lia. exact H.
+  - replace (zlen l <=? cap s - get_size s) with false by lia. reflexivity.
+Qed.
+
+Lemma append_range_cat_same s l : inv s -> append_range_cat_m false s l = append_range_cat_m true s l.
+Proof.
+  intros I. pose proof (append_range_cat_outcome false l s I) as H1. pose proof (append_range_cat_outcome true l s I) as H2.
+  pose proof I as (Hc & _ & Hs & _). unfold cap_ok in Hc.
+  destruct (get_size s + zlen l <=? cap s) eqn:E.
+  - unfold append_range_cat_m. rewrite (sz_id (cap s - get_size s)) by lia.
+    replace (zlen l <=? cap s - get_size s) with true by lia. reflexivity.
+  - rewrite H1, H2. reflexivity.
+Qed.
+
+Lemma append_range_outcome l s : inv s ->
+  if get_size s + zlen l <=? cap s then returns s (append_range_m s l) else append_range_m s l = Contract.
+Proof. apply append_range_cat_outcome. Qed.
 
 (** * insert: the guard, then append (clamped) and rotate *)
 Lemma insert_impl_clamp s pos src count : inv s -> 0 <= count < 18446744073709551616 ->
@@ -157,6 +183,7 @@ Definition pre_ok (s : istr) (o : op) : bool :=
   | OAssignViewSub src pos count => (pos <=? zlen src) && (sub_len src pos count <=? cap s)
   | OInsertStrSub index src indexStr _ => (index <=? size) && (indexStr <=? zlen src)
   | OErasePos pos => pos <? size
+  | OAppendRangeIn src => size + zlen src <=? cap s
   end.
 
 (* pointer arguments are readable: (s, count) stays inside the array s points into *)
@@ -211,7 +238,7 @@ Proof.
     + replace (index >? get_size s) with true by lia. reflexivity.
   - (* erase(index, count) *) destruct W as (W1 & W2). destruct (index <=? get_size s) eqn:E.
     + eapply refines_returns. apply erase_ref; [exact I|lia|lia].
-    + unfold erase_m, erase_range_m. rewrite E. reflexivity.
+    + unfold erase_m. rewrite E. reflexivity.
   - (* erase(first, last) *) destruct W as (W1 & W2).
     destruct (start <=? get_size s) eqn:E1; cbn [andb].
     + destruct (distance <=? get_size s - start) eqn:E2.
@@ -279,12 +306,10 @@ Proof.
   - (* assign(view, pos, count) *)
     destruct W as (W1 & W2). unfold assign_view_sub_m. destruct (pos <=? zlen src) eqn:E; cbn [andb].
     + destruct (arr_substr_ok src pos count P ltac:(lia) ltac:(lia)) as (sub & Es & Hv & _ & Hz). rewrite Es. cbn [rbind].
-      pose proof (ctor_ptr_outcome (cap s) (ckind s) (view_chars_m sub) (vlen sub) Hcap) as H.
-      unfold sub_len. rewrite <- Hv.
-      assert (0 <= vlen sub <= zlen (view_chars_m sub)) by (pose proof (zlen_nonneg (view_chars_m sub)); lia).
-      specialize (H ltac:(assumption)). destruct (vlen sub <=? cap s).
-      * destruct H as (s' & E' & I' & C' & K' & _). exact (returns_of_ctor s _ s' E' I' C' K').
-      * exact H.
+      unfold sub_len. rewrite <- Hv. destruct (vlen sub <=? cap s) eqn:E2.
+      * destruct (ctor_range_ref true (cap s) (ckind s) (view_chars_m sub) Hcap ltac:(lia)) as (s' & E' & I' & C' & K' & _).
+        exact (returns_of_ctor s _ s' E' I' C' K').
+      * apply ctor_range_contract; [exact Hcap|lia].
     + unfold C08.Model.substr_m, arr_view. cbn [vlen]. rewrite E. reflexivity.
   - (* insert(index, s) *)
     destruct W as (W1 & W2). unfold insert_cstr_m. destruct (index <=? get_size s) eqn:E.
@@ -308,6 +333,7 @@ Proof.
     destruct (free_erase_if_ref (fun x => x =? value) s I) as (s' & n & E & K & _). rewrite E. cbn [rbind fst]. exists s'. tauto.
   - (* etl::erase_if *)
     destruct (free_erase_if_ref (pred_of k) s I) as (s' & n & E & K & _). rewrite E. cbn [rbind fst]. exists s'. tauto.
+  - (* append(first, last), iterators that are not random access *) apply append_range_cat_outcome. exact I.
 Qed.
 
 (* in particular: no operation ever performs an out-of-bounds access or runs out of fuel *)
